@@ -795,3 +795,15 @@ pub fn replay_file(def: PropertyDef, path: &str) -> i32 {
 		}
 	}
 }
+
+/// prefix of at most `n` bytes that ends on a char boundary (generated texts are arbitrary UTF-8)
+pub fn clip(s: &str, n: usize) -> &str {
+	if s.len() <= n {
+		return s;
+	}
+	let mut k = n;
+	while !s.is_char_boundary(k) {
+		k -= 1;
+	}
+	&s[..k]
+}
